@@ -145,6 +145,20 @@ CHECKS = {
         design_ref="DESIGN.md section 4, C18",
         note="Trusted base: z3 5.1 (diffed against the z3 4.8.12 binary; cvc5 does not answer the 72-bit multiplication lemma within the cap), the AST evaluator vlib/astbv/eval.py, the Java transcription, CrossHair 0.0.110 + plugin. The C murmurhash2 extension is not installed and outside the claim.",
     ),
+    "C12": dict(
+        category="other", engine="chplug",
+        technique="symbolic execution of the real decoders with CrossHair/z3 on arbitrary symbolic buffers, truncations and hostile counts (abstract checksum); z3 bit-vector lemmas for CRC-32 burst detection",
+        text="Bounded SMT verification in four parts. (1) An arbitrary symbolic message body: whenever the stored checksum differs from the "
+             "checksum of data[4:], decoding raises ChecksumError and nothing else, and when it matches the decoded fields are those an "
+             "independent parser reads from the checksummed bytes. (2) z3 lemmas on a bit-serial CRC-32 model validated against zlib: per-bit "
+             "GF(2)-linearity, zero-step injectivity and non-zero difference after any burst of <= 32 consumed bits, which together give burst "
+             "detection for messages of any length. (3) Message sets cut at every point yield exactly the complete messages, or the "
+             "fetch-size-too-small signal when none is complete. (4) Primitive readers on arbitrary buffers either raise or advance within the "
+             "buffer; whole decoders on arbitrary symbolic buffers and on valid responses with hostile count/length values end with a value or "
+             "an exception within 4N+8 reader calls on every path.",
+        design_ref="DESIGN.md section 4, C12",
+        note="Trusted base: CrossHair 0.0.110, z3 5.1, plugin struct model, abstract checksum (also in replays of these obligations), reference parser; the link from the CRC model to the C implementation in zlib is by vectors. Time/memory proportionality is replaced by the reader-call bound; buffer sizes are those stated in the evidence.",
+    ),
 }
 
 NOT_YET = "check not built yet in this session; see DESIGN.md section 4 for the planned solver-based harness"
